@@ -88,7 +88,7 @@ func termsEqual(a, b *Term) bool {
 
 func runC02(w *World, r *Report) {
 	r.Rule("code", "constructors leave the specified type / subtype / experimenter codes", 35)
-	r.Rule("declen", "stored length fields equal the size of what the element contains, for every constructor and builder", 14)
+	r.Rule("declen", "stored length fields equal the size of what the element contains, for every constructor and builder", 13)
 	r.Rule("wirelen", "the declared length each encoder puts on the wire equals the bytes the element occupies at the moment of encoding", 34)
 	r.Rule("size", "size function ≡ bytes produced ≡ extent written, for every nested element kind", 40)
 	r.Rule("align8", "action, instruction, match and bucket sizes are multiples of 8", 30)
@@ -570,6 +570,12 @@ func declenRule(w *World, r *Report) {
 			continue
 		}
 		F := inv.F()
+		if why := loadBearing(w, k, inv); why == "" {
+			// the encoder recomputes the length from what the element contains: the stored field is not what
+			// reaches the wire, so a builder that leaves it stale does not break the property
+			r.OK("declen", inv.Kind, "recomputed", "-", inv.L+" is recomputed by the size function and the encoder from the contents ("+inv.What+"): its stored value does not reach the wire, constructors and builders need not maintain it (wirelen decides what is written)", true)
+			continue
+		}
 		// constructors establish L = F
 		for _, fi := range w.Constructors(k) {
 			cs := w.CtorSummary(fi)
@@ -910,4 +916,47 @@ func growableChildren(w *World, k *Kind, F *Term) [][2]string {
 	}
 	sort.Slice(out, func(i, j int) bool { return out[i][0] < out[j][0] })
 	return out
+}
+
+// loadBearing reports why the stored length field of an invariant matters for the bytes produced: the
+// size function or the encoder reads the value the constructors and builders left. Empty when both
+// recompute it from the contents.
+func loadBearing(w *World, k *Kind, inv lenInvariant) string {
+	reads := func(t *Term) bool {
+		if t == nil {
+			return false
+		}
+		return w.ExpandLens(t, 0).HasAtom(func(a *Atom) bool { return a.Kind == "val" && a.Path == inv.L })
+	}
+	if ls := w.LenSummary(k); ls == nil || ls.Term == nil {
+		return "size function not summarised"
+	} else if reads(ls.Term) {
+		return "the size function returns it"
+	}
+	es := w.EncSummary(k)
+	if es == nil {
+		return "encoder not summarised"
+	}
+	if reads(es.Size) || reads(es.Extent) {
+		return "the encoder sizes its buffer with it"
+	}
+	lp := inv.L[strings.LastIndex(inv.L, "$.")+2:]
+	for _, rec := range es.Recs {
+		switch {
+		case rec.Kind == "int" && rec.Val != nil && reads(rec.Val):
+			return "the encoder writes it"
+		case rec.Kind == "int" && rec.Val == nil && strings.Contains(rec.Src, "val("+inv.L+")"):
+			return "the encoder writes it"
+		case rec.Kind == "child" && strings.HasPrefix(rec.Src, "enc($."):
+			f := strings.TrimSuffix(strings.TrimPrefix(rec.Src, "enc($."), ")")
+			if !strings.HasPrefix(lp, f+".") {
+				continue
+			}
+			v := rec.Snap[strings.TrimPrefix(lp, f+".")]
+			if v == nil || reads(v) {
+				return "the embedded header is encoded with it"
+			}
+		}
+	}
+	return ""
 }
